@@ -5,6 +5,7 @@ DESIGN.md §5 C01; lean/Py4hwV/Verilog/* (formal reading of IEEE 1364 for the em
 Per run: every explored design's REAL emitted text is parsed (vparse), executed by the Lean Verilog semantics and compared
 cycle by cycle, from power-up, with the real py4hw simulator (translation validation); the Lean netlist model (Net.Sim with
 the generated leaves) is compared on the same histories as a third leg."""
+import re
 import copy
 from common import *
 import vparse, vsim, gen_vdesigns as GV, dump_ir as D
@@ -19,9 +20,12 @@ OBLIGATIONS = ['C01.inline_and2', 'C01.inline_or2', 'C01.inline_xor2', 'C01.inli
 # above to whole designs, all widths, all input histories from power-up
 OBLIGATIONS_FLAT = ['C01Flat.settled_exists', 'C01Flat.settled_unique', 'C01Flat.settle_reaches', 'C01Flat.shipped_settle',
                     'C01Flat.shipped_sim_settle', 'C01Flat.flat_settle', 'C01Flat.flat_settle_comb', 'C01Flat.flat_cycle',
-                    'C01Flat.flat_powerup', 'C01Flat.flat_run_corr', 'C01Flat.flat_run', 'C01Flat.store0_powerup', 'C01Flat.exF_wf',
-                    'FlatM.eval_congr', 'FlatM.kind_eval', 'FlatM.reg_body_exec', 'FlatM.comb_corr', 'FlatM.cycle_corr',
-                    'FlatM.run_corr', 'FlatM.FlatDesign.seqCorr']
+                    'C01Flat.flat_powerup', 'C01Flat.flat_run_corr', 'C01Flat.flat_run', 'C01Flat.shipped_cycle',
+                    'C01Flat.shipped_run', 'C01Flat.shipped_powerup', 'C01Flat.shipped_state_exists', 'C01Flat.store0_powerup',
+                    'C01Flat.exF_wf', 'FlatM.eval_congr', 'FlatM.kind_eval', 'FlatM.reg_body_exec', 'FlatM.comb_corr',
+                    'FlatM.cycle_corr', 'FlatM.run_corr', 'FlatM.FlatDesign.seqCorr', 'FlatM.settlePass_rd', 'FlatM.settleLoop_rd',
+                    'FlatM.exec_nba', 'FlatM.cycle_rd', 'FlatM.FlatDesign.cycOK', 'FlatM.FlatDesign.ship_run',
+                    'FlatM.kind_inst_prop', 'FlatM.reg_inst_clock']
 
 
 def widths_of(mod):
@@ -54,6 +58,18 @@ def patch_tree(tree, tags):
                 used.add('reg-wide-enable')
         for x in s[1:]:
             walk_stmt(x, w)
+    def size_literals(x):
+        # repair for 'literal-over-31-bits': give every unsized decimal literal >= 2**31 an explicit unsigned size
+        if isinstance(x, list):
+            if len(x) == 5 and x[0] == 'num' and x[1] == -1 and isinstance(x[3], int) and x[3] >= (1 << 31):
+                x[1] = max(33, x[3].bit_length())
+                x[2] = 0
+                used.add('literal-over-31-bits')
+                return
+            for y in x:
+                size_literals(y)
+    if 'literal-over-31-bits' in tags:
+        size_literals(t)
     for mod in t[1:]:
         w = widths_of(mod)
         for it in mod[4][1:]:
@@ -105,6 +121,28 @@ def features(d):
             walk(c)
     walk(d['hw'])
     return tags
+
+
+def has_wide_literal(x):
+    """the emitted text contains an unsized decimal literal >= 2**31 (IEEE 1364-2005 3.5.1 only guarantees 32 bits for it)"""
+    if isinstance(x, list):
+        if len(x) == 5 and x[0] == 'num' and x[1] == -1 and isinstance(x[3], int) and x[3] >= (1 << 31):
+            return True
+        return any(has_wide_literal(y) for y in x)
+    return False
+
+
+def zero_width_wires(d):
+    """names of wires of width 0 anywhere in the live design"""
+    out = []
+    def walk(o):
+        for c in o.children.values():
+            for pt in list(c.inPorts) + list(c.outPorts):
+                if pt.wire is not None and pt.wire.getWidth() == 0:
+                    out.append(pt.wire.getFullPath())
+            walk(c)
+    walk(d['hw'])
+    return sorted(set(out))
 
 
 def run_design(d, hist):
@@ -177,7 +215,13 @@ def main(res, tier, rng, replay):
         try:
             tree = vparse.parse(text)
         except vparse.VParseError as e:
-            res.fail(f'emitted Verilog does not parse: {e}', dict(desc, text=text[:3000]))
+            detail = dict(desc, text=text[:3000])
+            zw = zero_width_wires(d)
+            squeezed = re.sub(r'\s+', '', text)
+            if zw and ('=};' in squeezed or '={};' in squeezed or '[-1:0]' in squeezed):
+                # a wire of width 0 (and the empty concatenation that drives it) has no Verilog form
+                detail.update(zero_width_wires=zw[:6], known_class=True, explained_by=['zero-width-wire'])
+            res.fail(f'emitted Verilog does not parse: {e}', detail)
             continue
         hist = GV.random_history(r, d['inputs'], r.randint(4, 12) if tier == 'quick' else r.randint(6, 30))
         if d.get('nondet_div'):
@@ -186,6 +230,8 @@ def main(res, tier, rng, replay):
                 if cyc.get('i1', 1) == 0:
                     cyc['i1'] = 1
         tags = features(d)
+        if has_wide_literal(tree):
+            tags.add('literal-over-31-bits')
         try:
             tr = run_design(d, hist)
         except Exception as e:
